@@ -20,6 +20,10 @@ import Bng.Proof.NcpTables
 namespace Bng.Spec.C11
 open Bng.Ncp Bng.Gen Bng.Proof.NcpTables
 
+def cfgL : Cfg := { proto := .lcp, maxConf := 2 }
+def cfgI : Cfg := { proto := .ipcp, maxConf := 2, localIP := some [10, 0, 0, 1], peerIP := some [10, 0, 0, 100] }
+def cfg6 : Cfg := { proto := .ipv6cp, maxConf := 2 }
+
 /-! ## LCP -/
 
 /-- LCP reports Opened only while the peer has acknowledged our most recent Configure-Request and we have
@@ -56,13 +60,41 @@ theorem lcp_nak_rej_only_offending (c : Cfg) (s : State) (e : Ev) (p : Pkt)
     (p.code = cCN → ∀ n ∈ p.opts, ∃ o ∈ (evCtx e).opts, nakable (effCfg c s) o ∧ n.ty = o.ty) :=
   nak_rej_only_offending _ c s e p hp
 
-/-- Against a silent peer (nothing but expiries of the armed restart timer) the automaton stops: from any
+/-- Against a silent peer (nothing but expiries of the armed restart timer) the automaton falls quiet: from any
     reachable state, after at most `MaxConfigure + 1` expiries no timer is armed any more — so at most
-    `MaxConfigure` retransmissions are sent.  Variant: the restart counter. -/
-theorem lcp_silent_peer_stops (c : Cfg) (evs : List Ev) :
+    `MaxConfigure` retransmissions are sent.  Variant: the restart counter.  (That it also leaves the timer-driven
+    states is `lcp_silent_peer_stops_partial`.) -/
+theorem lcp_silent_peer_quiet (c : Cfg) (evs : List Ev) :
     ∃ n, n ≤ (max (initRc c) 0).toNat + 1 ∧
       (timeouts FsmLcp.tables c (run FsmLcp.tables c (init c) evs) n).armed = false :=
   silent_peer_stops_of lcp_to c evs
+
+/-- PARTIAL (finding KF-ncp-timer-stopped-early).  Full property: against a silent peer the automaton not only falls
+    quiet but STOPS, i.e. leaves the timer-driven states.  Proved: if at the moment the peer falls silent the automaton
+    is not already waiting without a timer (`WaitOk`: in Closing/Stopping/Req-Sent/Ack-Rcvd/Ack-Sent the restart timer
+    is armed), then after at most `MaxConfigure + 1` expiries no timer is armed and the state is none of those five.  What is
+    missing is exactly the excluded region: the receive handlers call stopTimer() BEFORE their state switch, so a
+    packet that does not move the automaton out of a timer-driven state leaves it there with no timer
+    (`lcp_KF_timer_stopped_early_witness`). -/
+theorem lcp_silent_peer_stops_partial (c : Cfg) (evs : List Ev) (h0 : WaitOk (run FsmLcp.tables c (init c) evs)) :
+    ∃ n, n ≤ (max (initRc c) 0).toNat + 1 ∧
+      (timeouts FsmLcp.tables c (run FsmLcp.tables c (init c) evs) n).armed = false ∧
+      waiting (timeouts FsmLcp.tables c (run FsmLcp.tables c (init c) evs) n).st = false :=
+  silent_peer_stops_partial_of lcp_to lcp_wait c evs h0
+
+/-- The defect, on the model of the code as it is: after Open, Up and the peer's Configure-Ack the automaton sits in
+    Ack-Rcvd with the restart timer stopped (RFC 1661 keeps it running there); `WaitOk` fails, and against a peer that
+    says nothing more it stays in Ack-Rcvd however many timer expiries are delivered. -/
+theorem lcp_KF_timer_stopped_early_witness :
+    ¬ WaitOk (run FsmLcp.tables cfgL (init cfgL) [.open, .up, .rca 1]) ∧
+    ∀ n, (timeouts FsmLcp.tables cfgL (run FsmLcp.tables cfgL (init cfgL) [.open, .up, .rca 1]) n).st = .AckRcvd := by
+  have ha : (run FsmLcp.tables cfgL (init cfgL) [.open, .up, .rca 1]).armed = false := by decide +kernel
+  have hs : (run FsmLcp.tables cfgL (init cfgL) [.open, .up, .rca 1]).st = .AckRcvd := by decide +kernel
+  refine ⟨?_, fun n => by rw [timeouts_unarmed _ _ _ ha n]; exact hs⟩
+  intro h
+  have := h (by rw [hs]; rfl)
+  rw [ha] at this
+  cases this
 
 /-! ## IPCP -/
 
@@ -103,11 +135,38 @@ theorem ipcp_acks_only_assigned (c : Cfg) (hc : c.proto = .ipcp) (evs : List Ev)
     ∀ o ∈ p.opts, o.ty = 3 → (run FsmIpcp.tables c (init c) evs).assigned = some o.data :=
   Bng.Ncp.ipcp_acks_only_assigned _ c hc evs e p hp hk
 
-/-- as `lcp_silent_peer_stops`, with `MaxRetransmit` (0 meaning 10) -/
-theorem ipcp_silent_peer_stops (c : Cfg) (evs : List Ev) :
+/-- as `lcp_silent_peer_quiet`, with `MaxRetransmit` (0 meaning 10) -/
+theorem ipcp_silent_peer_quiet (c : Cfg) (evs : List Ev) :
     ∃ n, n ≤ (max (initRc c) 0).toNat + 1 ∧
       (timeouts FsmIpcp.tables c (run FsmIpcp.tables c (init c) evs) n).armed = false :=
   silent_peer_stops_of ipcp_to c evs
+
+/-- PARTIAL (finding KF-ncp-timer-stopped-early).  Full property: against a silent peer the automaton not only falls
+    quiet but STOPS, i.e. leaves the timer-driven states.  Proved: if at the moment the peer falls silent the automaton
+    is not already waiting without a timer (`WaitOk`: in Closing/Stopping/Req-Sent/Ack-Rcvd/Ack-Sent the restart timer
+    is armed), then after at most `MaxRetransmit + 1` expiries no timer is armed and the state is none of those five.  What is
+    missing is exactly the excluded region: the receive handlers call stopTimer() BEFORE their state switch, so a
+    packet that does not move the automaton out of a timer-driven state leaves it there with no timer
+    (`ipcp_KF_timer_stopped_early_witness`). -/
+theorem ipcp_silent_peer_stops_partial (c : Cfg) (evs : List Ev) (h0 : WaitOk (run FsmIpcp.tables c (init c) evs)) :
+    ∃ n, n ≤ (max (initRc c) 0).toNat + 1 ∧
+      (timeouts FsmIpcp.tables c (run FsmIpcp.tables c (init c) evs) n).armed = false ∧
+      waiting (timeouts FsmIpcp.tables c (run FsmIpcp.tables c (init c) evs) n).st = false :=
+  silent_peer_stops_partial_of ipcp_to ipcp_wait c evs h0
+
+/-- The defect, on the model of the code as it is: after Open, Up and the peer's Configure-Ack the automaton sits in
+    Ack-Rcvd with the restart timer stopped (RFC 1661 keeps it running there); `WaitOk` fails, and against a peer that
+    says nothing more it stays in Ack-Rcvd however many timer expiries are delivered. -/
+theorem ipcp_KF_timer_stopped_early_witness :
+    ¬ WaitOk (run FsmIpcp.tables cfgI (init cfgI) [.open, .up, .rca 1]) ∧
+    ∀ n, (timeouts FsmIpcp.tables cfgI (run FsmIpcp.tables cfgI (init cfgI) [.open, .up, .rca 1]) n).st = .AckRcvd := by
+  have ha : (run FsmIpcp.tables cfgI (init cfgI) [.open, .up, .rca 1]).armed = false := by decide +kernel
+  have hs : (run FsmIpcp.tables cfgI (init cfgI) [.open, .up, .rca 1]).st = .AckRcvd := by decide +kernel
+  refine ⟨?_, fun n => by rw [timeouts_unarmed _ _ _ ha n]; exact hs⟩
+  intro h
+  have := h (by rw [hs]; rfl)
+  rw [ha] at this
+  cases this
 
 /-! ## IPv6CP -/
 
@@ -139,17 +198,41 @@ theorem ipv6cp_nak_rej_only_offending (c : Cfg) (s : State) (e : Ev) (p : Pkt)
     (p.code = cCN → ∀ n ∈ p.opts, ∃ o ∈ (evCtx e).opts, nakable (effCfg c s) o ∧ n.ty = o.ty) :=
   nak_rej_only_offending _ c s e p hp
 
-/-- as `ipcp_silent_peer_stops` -/
-theorem ipv6cp_silent_peer_stops (c : Cfg) (evs : List Ev) :
+/-- as `ipcp_silent_peer_quiet` -/
+theorem ipv6cp_silent_peer_quiet (c : Cfg) (evs : List Ev) :
     ∃ n, n ≤ (max (initRc c) 0).toNat + 1 ∧
       (timeouts FsmIpv6cp.tables c (run FsmIpv6cp.tables c (init c) evs) n).armed = false :=
   silent_peer_stops_of ipv6cp_to c evs
 
+/-- PARTIAL (finding KF-ncp-timer-stopped-early).  Full property: against a silent peer the automaton not only falls
+    quiet but STOPS, i.e. leaves the timer-driven states.  Proved: if at the moment the peer falls silent the automaton
+    is not already waiting without a timer (`WaitOk`: in Closing/Stopping/Req-Sent/Ack-Rcvd/Ack-Sent the restart timer
+    is armed), then after at most `MaxRetransmit + 1` expiries no timer is armed and the state is none of those five.  What is
+    missing is exactly the excluded region: the receive handlers call stopTimer() BEFORE their state switch, so a
+    packet that does not move the automaton out of a timer-driven state leaves it there with no timer
+    (`ipv6cp_KF_timer_stopped_early_witness`). -/
+theorem ipv6cp_silent_peer_stops_partial (c : Cfg) (evs : List Ev) (h0 : WaitOk (run FsmIpv6cp.tables c (init c) evs)) :
+    ∃ n, n ≤ (max (initRc c) 0).toNat + 1 ∧
+      (timeouts FsmIpv6cp.tables c (run FsmIpv6cp.tables c (init c) evs) n).armed = false ∧
+      waiting (timeouts FsmIpv6cp.tables c (run FsmIpv6cp.tables c (init c) evs) n).st = false :=
+  silent_peer_stops_partial_of ipv6cp_to ipv6cp_wait c evs h0
+
+/-- The defect, on the model of the code as it is: after Open, Up and the peer's Configure-Ack the automaton sits in
+    Ack-Rcvd with the restart timer stopped (RFC 1661 keeps it running there); `WaitOk` fails, and against a peer that
+    says nothing more it stays in Ack-Rcvd however many timer expiries are delivered. -/
+theorem ipv6cp_KF_timer_stopped_early_witness :
+    ¬ WaitOk (run FsmIpv6cp.tables cfg6 (init cfg6) [.open, .up, .rca 1]) ∧
+    ∀ n, (timeouts FsmIpv6cp.tables cfg6 (run FsmIpv6cp.tables cfg6 (init cfg6) [.open, .up, .rca 1]) n).st = .AckRcvd := by
+  have ha : (run FsmIpv6cp.tables cfg6 (init cfg6) [.open, .up, .rca 1]).armed = false := by decide +kernel
+  have hs : (run FsmIpv6cp.tables cfg6 (init cfg6) [.open, .up, .rca 1]).st = .AckRcvd := by decide +kernel
+  refine ⟨?_, fun n => by rw [timeouts_unarmed _ _ _ ha n]; exact hs⟩
+  intro h
+  have := h (by rw [hs]; rfl)
+  rw [ha] at this
+  cases this
+
 /-! ## non-vacuity: Opened is reachable, replies are sent, the timer does get armed -/
 
-def cfgL : Cfg := { proto := .lcp, maxConf := 2 }
-def cfgI : Cfg := { proto := .ipcp, maxConf := 2, localIP := some [10, 0, 0, 1], peerIP := some [10, 0, 0, 100] }
-def cfg6 : Cfg := { proto := .ipv6cp, maxConf := 2 }
 
 /-- the ordinary handshake reaches Opened, in both orders -/
 example : (run FsmLcp.tables cfgL (init cfgL) [.open, .up, .rcr 7 [⟨1, [5, 212], .conc⟩] false, .rca 1]).st = .Opened := by
@@ -196,5 +279,9 @@ example : (timeouts FsmLcp.tables cfgL (run FsmLcp.tables cfgL (init cfgL) [.ope
 
 /-- the hypothesis of `lcp_leaves_opened` is satisfiable -/
 example : Leaving FsmLcp.tables (run FsmLcp.tables cfgL (init cfgL) [.open, .up, .rcr 7 [] false, .rca 1]) (.rtr 3) := trivial
+
+/-- the hypothesis of the `_silent_peer_stops_partial` theorems holds e.g. right after Open, Up: then two expiries
+    lead to Stopped with no timer armed -/
+example : WaitOk (run FsmLcp.tables cfgL (init cfgL) [.open, .up]) := fun _ => by decide +kernel
 
 end Bng.Spec.C11
